@@ -26,7 +26,7 @@ PROPS = {
                 rule="one evaluation = one seeded history with high-entropy marker names/values; after every save every file in the state directory is scanned for every marker in raw, hex, base64 (3 alignments, std+url) and JSON-escaped form; distinct = distinct canonical event-log hash; non-trivial = executed at least one call",
                 assumptions=["wholesale replacement by an older valid snapshot is out of scope, as the property says"]),
     "C06": dict(level="exploration", stages=[
-                    dict(kind="sim", name="sink", engine="dbworld-audit", quick=20, thorough=600),
+                    dict(kind="sim", name="sink", engine="dbworld-audit,dbworld-conc", quick=24, thorough=600),
                     dict(kind="sim", name="race", engine="dbworld-conc-free", race=True, instrumented=False, quick=10, thorough=240,
                          env={"VERIF_GOMAXPROCS": "4", "GORACE": "halt_on_error=1 exitcode=66", "VERIF_PRINT_START": "1"})],
                 rule="one evaluation = one seeded history of authorised and denied calls with an audit sink that can fail (write error, short write, sync error) at a drawn record; distinct = distinct canonical event-log hash; non-trivial = executed at least one call",
@@ -70,7 +70,8 @@ PROPS = {
                 rule="one evaluation = one concurrent history (2-4 clients x 2-5 calls on 1-2 shared names, DB API or handlers) under a seeded baton schedule with park points at every mutex acquisition, audit write, WhoIs call and transport delivery/response, decided by porcupine against the map model with a final sequential read-out; second stage: the same workloads free-running under the race detector; distinct = distinct canonical event-log hash (schedule + results); non-trivial = at least one scheduling step",
                 probes_required=["lock-contention", "porcupine-ok"],
                 assumptions=["interleavings are controlled at lock/seam granularity; finer effects are visible only to the race-detector stage, whose reports replay as 'same workload seed, re-run'", "porcupine timeouts (30 s) are counted as inconclusive, never reported"]),
-    "C09": dict(level="exploration", stages=[dict(kind="sim", quick=30, thorough=600)],
+    "C09": dict(level="exploration", stages=[dict(kind="sim", quick=30, thorough=600),
+                                             dict(kind="mod", module="crashfs", db=True, cache=False, faults="error", kinds=["activate"], per_kind_quick=1, per_kind_thorough=6, quick=30, thorough=300)],
                 rule="one evaluation = one seeded history biased to conditional gets with V drawn from {active, older, deleted, larger, 0}, through DB API, handlers+Client and FileClient; distinct = distinct canonical event-log hash; non-trivial = executed at least one call",
                 assumptions=["sequential callers; concurrency of activation with conditional gets is C14's"]),
 }
